@@ -1,4 +1,4 @@
-import SyneTune.Lemmas.HBPromotion
+import SyneTune.Lemmas.HBPromotion3
 /-
 C04 — promotion-type Hyperband (ASHA, PASHA, cost-aware, RUSH) promotes only eligible trials.
 Property theorems only; helper lemmas are in `Lemmas/HBPromotion.lean`.
@@ -32,13 +32,7 @@ theorem pause_exactly_at_milestone (s : RungSys) (m : Mode) (tid r : Nat) (v cos
     subst h
     unfold RungSys.promoReport at hok
     simp only [hrun, Nat.le_refl, if_true, ne_eq, not_true_eq_false, if_false] at hok
-    split at hok
-    · injection hok with hok; injection hok with _ h2; rw [← h2]; exact ⟨rfl, rfl⟩
-    · split at hok
-      · cases hok
-      · split at hok
-        · cases hok
-        · injection hok with hok; injection hok with _ h2; rw [← h2]; exact ⟨rfl, rfl⟩
+    exact (promoReached_spec s s' m tid v cost r _ o hok).1
 
 /-- **Never more than the cap.**  A promotion resumes a trial from a rung strictly below the
 cap (`max_t`, for PASHA the current cap) and tells it to run exactly to the next rung level
@@ -155,5 +149,221 @@ theorem not_promotable_means (m : Mode) (rg : Rung) (hint : Option Nat) (h : pla
     subst this
     have := (cmpNoWorse_forced m e.val c rg.scale false hb).mpr hnw
     cases this
+
+
+/-! ### promoted at most once — over every history -/
+
+/-- operations on one promotion rung system -/
+inductive POp
+  | schedule (hint : Option Nat)
+  | report (tid r : Nat) (v cost : Rat)
+  | add (tid ms : Nat) (resumeFrom : Option Nat)
+  | remove (tid : Nat)
+
+def stepP (ty : HBType) (m : Mode) (s : RungSys) : POp → RungSys
+  | .schedule hint => (s.promoSchedule ty m hint).1
+  | .report tid r v cost => match s.promoReport m tid r v cost with | .ok res => res.1 | .error _ => s
+  | .add tid ms rf => { s with running := aset tid (ms, rf) s.running }
+  | .remove tid => { s with running := adel tid s.running }
+
+def runP (ty : HBType) (m : Mode) (s : RungSys) (ops : List POp) : RungSys := ops.foldl (stepP ty m) s
+
+theorem stepP_steps (ty : HBType) (m : Mode) (s : RungSys) (op : POp) :
+    List.Forall₂ (RungStep m) s.rungs (stepP ty m s op).rungs := by
+  have hre : ∀ ys : List Rung, List.Forall₂ (RungStep m) ys ys := by
+    intro ys; induction ys with
+    | nil => exact List.Forall₂.nil
+    | cons y ys ihy => exact List.Forall₂.cons (RungStep.same y) ihy
+  cases op with
+  | schedule hint => exact promoScan_steps ty m s.numThr (s.cap ty) hint s.maxT s.thresholds s.rungs
+  | report tid r v cost =>
+    simp only [stepP]
+    cases h : s.promoReport m tid r v cost with
+    | error e => exact hre _
+    | ok res => obtain ⟨s', o⟩ := res; exact promoReport_steps s s' m tid r v cost o h
+  | add tid ms rf => exact hre _
+  | remove tid => exact hre _
+
+/-- **Invariant over all histories**: every trial occurs at most once per rung, rung levels
+never change, and a promotion record is never lost. -/
+theorem history_invariant (ty : HBType) (m : Mode) (s : RungSys) (ops : List POp) :
+    (AllNodup s.rungs → AllNodup (runP ty m s ops).rungs) ∧
+    (∀ level t, PromotedAt s.rungs level t → PromotedAt (runP ty m s ops).rungs level t) ∧
+    (runP ty m s ops).rungs.map (·.level) = s.rungs.map (·.level) := by
+  induction ops generalizing s with
+  | nil => exact ⟨fun h => h, fun _ _ h => h, rfl⟩
+  | cons op ops ih =>
+    obtain ⟨a1, a2, a3⟩ := steps_preserve (stepP_steps ty m s op)
+    obtain ⟨b1, b2, b3⟩ := ih (stepP ty m s op)
+    exact ⟨fun h => b1 (a1 h), fun l t h => b2 l t (a2 l t h), by rw [show runP ty m s (op :: ops) = runP ty m (stepP ty m s op) ops from rfl, b3, a3]⟩
+
+/-- **A trial is promoted from a rung at most once** (ASHA / PASHA).  Once trial `t` has been
+promoted from the rung of level `r` — at any point of any history of schedule / report /
+add / remove operations since — no later promotion scan promotes `t` from `r` again. -/
+theorem promoted_once (ty : HBType) (hty : ty.plain) (m : Mode) (s : RungSys) (ops : List POp)
+    (hnd : AllNodup s.rungs) (hdec : RungsDecr s.rungs) (level t : Nat)
+    (hp : PromotedAt s.rungs level t) (hint : Option Nat) (o : SchedOut)
+    (h : ((runP ty m s ops).promoSchedule ty m hint).2.1 = some o) (ht : o.trial = t) :
+    o.resumeFrom ≠ level := by
+  obtain ⟨i1, i2, i3⟩ := history_invariant ty m s ops
+  generalize runP ty m s ops = s2 at *
+  have hnd2 := i1 hnd
+  obtain ⟨rgP, hrgP, hlv, hpin⟩ := i2 level t hp
+  intro heq
+  unfold RungSys.promoSchedule at h
+  obtain ⟨pre, rg, post, pos, h1, h2, _, _, h5, _, _⟩ :=
+    promoScan_plain_pre_none ty hty m s2.numThr (s2.cap ty) hint s2.maxT s2.thresholds s2.rungs o h
+  -- rungs of equal level coincide (levels are pairwise distinct)
+  have hdec2 : (s2.rungs.map (·.level)).Pairwise (fun a b => b < a) := by
+    rw [i3]; unfold RungsDecr at hdec; exact List.pairwise_map.mpr hdec
+  have hrg : rg ∈ s2.rungs := by rw [h1]; simp
+  have hsame : rgP = rg := by
+    have hl : rgP.level = rg.level := by rw [hlv, h2, heq]
+    have hdec3 : s2.rungs.Pairwise (fun a b => b.level < a.level) := List.pairwise_map.mp hdec2
+    exact decr_level_inj s2.rungs hdec3 rgP rg hrgP hrg hl
+  subst hsame
+  rw [ht] at h5
+  exact plainPick_not_promoted m rgP hint t pos (hnd2 rgP hrgP) hpin h5
+
+/-- the promotion itself creates the record used by `promoted_once` -/
+theorem promotion_recorded (ty : HBType) (hty : ty.plain) (m : Mode) (s : RungSys) (hint : Option Nat)
+    (o : SchedOut) (h : (s.promoSchedule ty m hint).2.1 = some o) :
+    PromotedAt (s.promoSchedule ty m hint).1.rungs o.resumeFrom o.trial := by
+  unfold RungSys.promoSchedule at h ⊢
+  obtain ⟨pre, rg, post, pos, h1, h2, _, _, h5, h6, _⟩ :=
+    promoScan_plain_pre_none ty hty m s.numThr (s.cap ty) hint s.maxT s.thresholds s.rungs o h
+  obtain ⟨c, e, _, g2, g3, _, _, _⟩ := plainPick_some m rg hint o.trial pos h5
+  refine ⟨markPromoted m rg pos, by simp only; rw [h6]; simp, ?_, ?_⟩
+  · rw [(markPromoted_perm m rg pos e g2).2.1, h2]
+  · rw [← g3]; exact markPromoted_promotedIn m rg pos e g2
+
+/-! ### PASHA: the resource cap -/
+
+/-- **PASHA's cap grows monotonically and is always a rung level or `max_t`**, at every
+report of every history (one step; `PashaInv` is preserved, so it lifts by induction). -/
+theorem pasha_cap_monotone (s s' : RungSys) (m : Mode) (tid r : Nat) (v eps : Rat) (o : RepOut)
+    (hinv : PashaInv s) (h : s.pashaReport m tid r v eps = .ok (s', o)) :
+    PashaInv s' ∧ s.curMaxT ≤ s'.curMaxT ∧ (s'.curMaxT = s'.maxT ∨ s'.curMaxT ∈ s'.levelsAsc) :=
+  pashaReport_cap s s' m tid r v eps o hinv h
+
+/-- the freshly constructed PASHA system satisfies `PashaInv` whenever there are at least
+two rung levels (strictly increasing, below `max_t`) — non-vacuity. -/
+example : PashaInv (mkSys .pasha 0 [1, 3, 9] (promoteQuantiles [1, 3, 9] 27) 27) := by
+  unfold PashaInv mkSys RungSys.initPasha mkRungSys promoteQuantiles pyIndex
+  refine ⟨by simp, by simp, by simp, Or.inr (Or.inl ⟨by simp, by simp⟩)⟩
+
+
+/-! ### cost-aware and RUSH eligibility, stated outright -/
+
+/-- **Cost-aware promotion.**  The entry picked by the cost scan is unpromoted, everything
+ranked better is already promoted, and the cumulative cost up to and including the picked
+entry does not exceed the threshold `q · C(r, N)` (whenever that comparison is outside
+round-off). -/
+theorem cost_rule (threshold total : Rat) (level : Nat) (hint : Option Nat) (data : List Entry)
+    (pos : Nat) (acc : Rat) (e : Entry) (p : Nat) (fr : Bool)
+    (h : costFirstPromotable threshold total level hint data pos acc = (some (e, p), fr)) :
+    ∃ pre post, data = pre ++ e :: post ∧ p = pos + pre.length ∧ e.promoted = false ∧
+      (∀ x ∈ pre, x.promoted = true) ∧
+      (∀ b, cmpLe (acc + (pre.map (·.cost)).foldl (· + ·) 0 + e.cost) threshold (absRat total) = .forced b →
+        acc + (pre.map (·.cost)).foldl (· + ·) 0 + e.cost ≤ threshold) := by
+  induction data generalizing pos acc fr with
+  | nil => simp [costFirstPromotable] at h
+  | cons x xs ih =>
+    unfold costFirstPromotable at h
+    simp only at h
+    by_cases hw : (cmpLe (acc + x.cost) threshold (absRat total)).resolve (hint == some level) = true
+    · simp only [hw, Bool.not_true, Bool.false_eq_true, if_false] at h
+      by_cases hp : x.promoted = true
+      · simp only [hp, Bool.not_true, Bool.false_eq_true, if_false] at h
+        cases hr : costFirstPromotable threshold total level hint xs (pos + 1) (acc + x.cost) with
+        | mk r1 r2 =>
+          rw [hr] at h
+          simp only [Prod.mk.injEq] at h
+          obtain ⟨h1, _⟩ := h
+          subst h1
+          obtain ⟨pre, post, g1, g2, g3, g4, g5⟩ := ih (pos + 1) (acc + x.cost) r2 hr
+          refine ⟨x :: pre, post, by rw [g1]; rfl, by simp [g2]; omega, g3, ?_, ?_⟩
+          · intro y hy
+            rcases List.mem_cons.mp hy with rfl | hy
+            · exact hp
+            · exact g4 y hy
+          · have hsum : acc + ((x :: pre).map (·.cost)).foldl (· + ·) 0
+                = acc + x.cost + (pre.map (·.cost)).foldl (· + ·) 0 := by
+              simp only [List.map_cons, List.foldl_cons]
+              have : ∀ (l : List Rat) (a : Rat), l.foldl (· + ·) a = a + l.foldl (· + ·) 0 := by
+                intro l; induction l with
+                | nil => intro a; simp
+                | cons y ys ihy => intro a; simp only [List.foldl_cons]; rw [ihy (a + y), ihy (0 + y)]; ring
+              rw [this _ (0 + x.cost)]; ring
+            rw [hsum]; exact g5
+      · simp only [Bool.not_eq_true] at hp
+        simp only [hp, Bool.not_false, if_true, Prod.mk.injEq, Option.some.injEq] at h
+        obtain ⟨⟨h1, h2⟩, _⟩ := h
+        subst h1; subst h2
+        refine ⟨[], xs, rfl, by simp, hp, by simp, ?_⟩
+        intro b hb
+        simp only [List.map_nil, List.foldl_nil, add_zero] at hb ⊢
+        rw [hb] at hw
+        simp only [Cmp.resolve] at hw
+        subst hw
+        exact (cmpLe_forced _ _ _ true hb).mp rfl
+    · simp only [Bool.not_eq_true] at hw
+      simp [hw] at h
+
+/-- **RUSH threshold rule** (`RUSHDecider.task_continues`): a trial that would continue
+under the base rule continues iff it is a threshold candidate (`trial_id <
+num_threshold_candidates`, which also tightens the threshold of that level) or its metric
+is no worse than the level's threshold (no threshold yet: continues). -/
+theorem rush_rule (m : Mode) (numThr : Nat) (thr : List (Nat × Rat)) (tc : Bool) (tid : Nat)
+    (v : Rat) (resource : Nat) :
+    ((rushDecide m numThr thr tc tid v resource).1 = true ↔
+      tc = true ∧ (tid < numThr ∨
+        match alookup resource thr with
+        | none => True
+        | some t => m.noWorse v t)) ∧
+    (tc = false ∨ ¬ tid < numThr → (rushDecide m numThr thr tc tid v resource).2 = thr) := by
+  unfold rushDecide
+  cases tc with
+  | false => simp
+  | true =>
+    by_cases hc : tid < numThr
+    · simp [hc]
+    · simp only [Bool.not_true, Bool.false_eq_true, if_false, hc, decide_eq_true_eq, true_and, false_or,
+        not_false_eq_true, or_true, implies_true, and_true]
+      cases hl : alookup resource thr with
+      | none => simp [rushBetter]
+      | some t =>
+        cases m with
+        | min =>
+          simp only [rushBetter, Mode.noWorse]
+          constructor
+          · intro h; split at h
+            · exact le_of_lt ‹v < t›
+            · rw [h]
+          · intro h; split
+            · rfl
+            · rename_i hn; exact le_antisymm (not_lt.mp hn) h
+        | max =>
+          simp only [rushBetter, Mode.noWorse]
+          constructor
+          · intro h; split at h
+            · exact le_of_lt ‹t < v›
+            · rw [h]
+          · intro h; split
+            · rfl
+            · rename_i hn; exact le_antisymm h (not_lt.mp hn)
+
+/-- RUSH stopping is the base quantile rule *and* the threshold rule: it never continues a
+trial the base rule stops. -/
+theorem rush_stopping_stricter (s : RungSys) (m : Mode) (tid r : Nat) (v : Rat) (skip : Nat) (hint : Bool)
+    (h : (s.rushStopReport m tid r v skip hint).2.continues = true) :
+    (s.stopReport m tid r v skip hint).2.continues = true := by
+  unfold RungSys.rushStopReport at h
+  simp only at h
+  split at h
+  · simp only at h
+    have := (rush_rule m s.numThr s.thresholds (s.stopReport m tid r v skip hint).2.continues tid v r).1.mp h
+    exact this.1
+  · exact h
 
 end SyneTune.C04
